@@ -2,6 +2,7 @@
 package c18
 
 import (
+	"bytes"
 	"encoding/json"
 	"errors"
 	"fmt"
@@ -162,6 +163,10 @@ func otherCalls(c Case, w *vkit.W, limit int) {
 		_ = d.Scan(nil)
 		_ = d.Scan(c.Rule)
 		_ = d.Scan(time.Unix(int64(c.Rule), 0))
+		tm := time.Unix(int64(c.Rule), int64(len(a)))
+		for _, src := range []any{&tm, (*time.Time)(nil), (*date.Date)(nil), d, &d, (*string)(nil), &sa, (*[]byte)(nil), []any{tm}, map[string]any{}, error(nil), int64(c.Rule), uint8(c.Rule), 1.5, true, struct{}{}, time.Duration(c.Rule), (func())(nil), make(chan int)} {
+			_ = d.Scan(src)
+		}
 		_ = json.Unmarshal(a, &d)
 		_ = d.String()
 		_, _ = d.MarshalBinary()
@@ -384,6 +389,9 @@ func nontrivial(c Case, limit int) bool {
 func TestCheck(t *testing.T) {
 	r := vkit.Start("C18")
 	defer r.Finish(t)
+	if r.ReplayCold() {
+		return
+	}
 	if r.Replay != "" {
 		var c Case
 		if err := r.LoadReplay(&c); err != nil {
@@ -531,6 +539,36 @@ func TestCheck(t *testing.T) {
 						}
 					}
 				}
+			}
+		})
+	})
+
+	// Phase B4: runs of every single byte value (lengths around typical buffer sizes), default limits and limit disabled.
+	r.Phase("B4: runs of each of the 256 byte values, lengths {1,2,3,9,10,11,36,45,63,64,65,66,100,127,128,129,255,256,257,1023,1024,1025}, default and disabled limits", func() {
+		r.Parallel(int64(len(pkgs)), 1, func(w *vkit.W, plo, phi int64) {
+			for _, pkg := range pkgs[plo:phi] {
+				for _, lim := range []int{-1, 0} {
+					restore := setLimit(pkg, lim)
+					for bv := 0; bv < 256; bv++ {
+						for _, n := range []int{1, 2, 3, 9, 10, 11, 36, 45, 63, 64, 65, 66, 100, 127, 128, 129, 255, 256, 257, 1023, 1024, 1025} {
+							a := bytes.Repeat([]byte{byte(bv)}, n)
+							c := Case{Pkg: pkg, A: vkit.B(a), B: vkit.B(a[:n/2]), Rule: []int{0, 6, -1}[bv%3], Limit: lim}
+							judge(c, w)
+							w.EvalRandom(vkit.Hash64(pkg, string(a), strconv.Itoa(lim)), true)
+						}
+					}
+					restore()
+				}
+			}
+		})
+	})
+
+	// Phase B5: the first library calls of a fresh process (lazily built state): every scenario in its own child process.
+	r.Phase(fmt.Sprintf("B5: %d cold-start scenarios, each in a fresh process", len(coldScenarios)), func() {
+		r.Serial(func(w *vkit.W) {
+			for _, sc := range coldScenarios {
+				r.RunCold(w, sc, false)
+				w.EvalRandom(vkit.Hash64("cold", sc), true)
 			}
 		})
 	})
